@@ -138,6 +138,11 @@ func (w *c03Worker) run(job c03Job) c03Result {
 		if r.err == nil {
 			var resp c03Resp
 			if json.Unmarshal([]byte(r.line), &resp) == nil && resp.ID == job.req.ID {
+				if resp.Left > 0 {
+					// goroutines started by the script are still running in that child: a later
+					// fault of theirs must not be attributed to the next case
+					w.stop()
+				}
 				return c03Result{Resp: &resp}
 			}
 		}
@@ -311,6 +316,7 @@ type c03Run struct {
 	small  *c03Pool // small native stack: cyclic-data cases die quickly
 	mu     sync.Mutex
 	deaths int
+	ranks  map[string]int // thread cases: generation order (simplest first)
 }
 
 var c03Directed = []struct{ name, src string }{
@@ -556,6 +562,36 @@ func (c *c03Run) judgeSrc(stream, src string, res c03Result) {
 	if r.Eval == "panic" {
 		e.R.Spec(key, "a Go panic escaped risor.Eval: "+r.EvalMsg, c.evalPanicFinding(r))
 	}
+	if r.Eval == "err" && strings.HasPrefix(r.EvalMsg, "panic:") && len(src) <= 4000 {
+		// vm.Run recovered a Go panic raised by this input: the same input must be as harmless
+		// on a goroutine of its own, where only object.NewThread's recover stands
+		e.R.H("recovered_panic_inputs", stream)
+		c.threadedSrc(stream, src)
+	}
+}
+
+// threadedSrc re-runs a source as the body of a spawned function, waited for and not.
+func (c *c03Run) threadedSrc(stream, src string) {
+	e := c.e
+	for _, v := range []struct{ how, text string }{
+		{"spawn-wait", "t := spawn(func() {\n" + src + "\n})\nt.wait()"},
+		{"go", "go func() {\n" + src + "\n}()\n0"},
+	} {
+		v := v
+		key := "threaded/" + v.how + "|from=" + stream + "|WithConcurrency|" + strconv.Quote(v.text)
+		c.pool.submitAsync(c03Req{Mode: "script", Opt: "conc", Src: hex.EncodeToString([]byte(v.text)), N: 5000}, 40*time.Second, func(res c03Result) {
+			e.R.Case(key, true)
+			if res.Death != nil {
+				e.R.H("threaded_src", "died:"+res.Death.Kind)
+				c.threadDeath(key, res.Death)
+				return
+			}
+			e.R.H("threaded_src", res.Resp.Eval)
+			if res.Resp.Eval == "panic" {
+				e.R.Spec(key, "a Go panic escaped risor.Eval: "+res.Resp.EvalMsg, "")
+			}
+		})
+	}
 }
 
 // c03SwitchCaseGuard: the source contains a `switch` and, after it, a `case` keyword — the
@@ -624,12 +660,12 @@ func (c *c03Run) vmCases() {
 		// an index panic inside a spawned thread / a `go` statement must stay inside that thread
 		if d == 1000 || d == 2000 {
 			src4 := "x := 1\nt := spawn(func() { return " + sb.String() + " })\nt.wait()\n0"
-			c.pool.submit(c03Req{Mode: "script", Src: hex.EncodeToString([]byte(src4)), N: 10000}, 60*time.Second, func(res c03Result) {
-				c.judgeVM(fmt.Sprintf("vm-spawn|depth=%d|x := 1; t := spawn(func() { return [x, [x, … %d deep … x]] }); t.wait(); 0", d, d), "", res)
+			c.pool.submit(c03Req{Mode: "script", Opt: "conc", Src: hex.EncodeToString([]byte(src4)), N: 10000}, 60*time.Second, func(res c03Result) {
+				c.judgeVM(fmt.Sprintf("vm-spawn|depth=%d|WithConcurrency|x := 1; t := spawn(func() { return [x, [x, … %d deep … x]] }); t.wait(); 0", d, d), "", res)
 			})
 			src5 := "x := 1\ngo func() { y := " + sb.String() + " }()\nfor i := range 300000 { }\n0"
-			c.pool.submit(c03Req{Mode: "script", Src: hex.EncodeToString([]byte(src5)), N: 10000}, 60*time.Second, func(res c03Result) {
-				c.judgeVM(fmt.Sprintf("vm-go|depth=%d|x := 1; go func() { y := [x, [x, … %d deep … x]] }(); for i := range 300000 { }; 0", d, d), "", res)
+			c.pool.submit(c03Req{Mode: "script", Opt: "conc", Src: hex.EncodeToString([]byte(src5)), N: 10000}, 60*time.Second, func(res c03Result) {
+				c.judgeVM(fmt.Sprintf("vm-go|depth=%d|WithConcurrency|x := 1; go func() { y := [x, [x, … %d deep … x]] }(); for i := range 300000 { }; 0", d, d), "", res)
 			})
 		}
 	}
@@ -649,6 +685,9 @@ func (c *c03Run) judgeVM(key, ops string, res c03Result) {
 		if r.Eval == "panic" {
 			e.R.Spec(key, "a Go panic escaped from a spawned thread: "+r.EvalMsg, "")
 		}
+		if strings.Contains(r.EvalMsg, "did not contain a spawn function") {
+			e.R.Mismatch(key, r.EvalMsg, "a thread is started", "the case must run with concurrency enabled (otherwise it exercises nothing)")
+		}
 		return
 	}
 	model := strings.Split(e.O.Ask("C03", "vm", ops), "\t")[0]
@@ -667,6 +706,291 @@ func (c *c03Run) judgeVM(key, ops string, res c03Result) {
 	}
 	if (model == "ok") != (goOut == "ok") || (model == "recovered" && goOut != "recovered") {
 		e.R.Mismatch(key, goOut+" "+c03_short(r.EvalMsg, 120), model, "VM array limit: which depth is the first to fail, and that it fails as a recovered index panic")
+	}
+}
+
+// ---------------------------------------------------------------- goroutines started by scripts
+//
+// Every Go panic that vm.Run / vm.Call recover on the caller's goroutine can also be raised on
+// a goroutine the script started (spawn, f.spawn, builtin.spawn, `go`), where the ONLY recover
+// is the one deferred in object.NewThread.  These cases need risor.WithConcurrency(): without
+// it spawn/go return "context did not contain a spawn function" and nothing is exercised.
+// Model: `enter <entry> <body>` (Model.lean 4b) — value | error | killed.
+
+// c03PanicSrc: defs (top-level definitions), fn (a callable expression) and args such that
+// fn(args) raises the Go panic.  ops != "" : the body is a VM array overrun the model decides
+// (run on a fresh VM); ops == "" : the body's class (panics / returns) is MEASURED by running
+// fn(args) on the main goroutine first (entry `run`), then every threaded variant must agree.
+type c03PanicSrc struct {
+	name, defs, shownDefs, fn, args, ops string
+	all                              bool // every start style (else: the three basic ones)
+}
+
+func c03NestedList(d int) string {
+	var sb strings.Builder
+	for i := 0; i < d; i++ {
+		sb.WriteString("[x, ")
+	}
+	sb.WriteString("x")
+	for i := 0; i < d; i++ {
+		sb.WriteString("]")
+	}
+	return sb.String()
+}
+
+func c03PanicSources() []c03PanicSrc {
+	out := []c03PanicSrc{
+		// unbounded recursion overruns vm.frames (index out of range [1024])
+		{name: "recursion-unbounded", defs: "func boom(n) { return boom(n + 1) }", fn: "boom", args: "0", ops: "call*1100", all: true},
+		// explicit Go panics and nil dereferences inside builtins (string panic values and runtime.Error values)
+		{name: "builtin-strings.repeat", fn: "strings.repeat", args: `"a", -1`, all: true},
+		{name: "builtin-sorted-maps", fn: "sorted", args: `[{"a": 1}, {"b": 2}]`, all: true},
+		{name: "builtin-bytes.repeat", fn: "bytes.repeat", args: "byte_slice([1]), -1", all: true},
+		{name: "method-list.sort-maps", defs: "func srt() { return [{\"a\": 1}, {\"b\": 2}].sort() }", fn: "srt", all: true},
+		// a panic object/chan.go recovers by itself, an ordinary error value, a plain return
+		{name: "send-on-closed-chan", defs: "c := chan(1); close(c)\nfunc snd() { c <- 1 }", fn: "snd", all: true},
+		{name: "error-value", fn: "error", args: `"e"`, all: true},
+		{name: "returns", defs: "func okf(n) { return n + 1 }", fn: "okf", args: "1", all: true},
+	}
+	// thresholds of both arrays on a thread's fresh VM: rec(d) makes d+1 calls, the literal d+1 pushes
+	for _, d := range []int{1000, 1022, 1023, 2000} {
+		out = append(out, c03PanicSrc{name: fmt.Sprintf("recursion-depth-%d", d), defs: "func rec(n) { if n <= 0 { return 0 }\n return rec(n-1) }",
+			fn: "rec", args: strconv.Itoa(d), ops: fmt.Sprintf("call*%d", d+1)})
+	}
+	for _, d := range []int{1000, 1023, 1024, 2000} {
+		out = append(out, c03PanicSrc{name: fmt.Sprintf("operands-depth-%d", d), defs: "x := 1\nfunc deep() { y := " + c03NestedList(d) + "\n return 7 }",
+			shownDefs: fmt.Sprintf("x := 1\nfunc deep() { y := [x, [x, … %d deep … x]]\n return 7 }", d), fn: "deep", ops: fmt.Sprintf("push*%d", d+1)})
+	}
+	return out
+}
+
+// start styles: %C = fn(args), %S = spawn(fn, args), %M = fn.spawn(args)
+// observe: raise = the thread's result reaches the top level (wait() raises an error object),
+// caught = try() turns it into the value "E:<message>", none = nobody looks at the thread
+var c03ThreadStyles = []struct {
+	name, tmpl, observe string
+	basic               bool
+}{
+	{"spawn-wait", "t := %S\nt.wait()", "raise", true},
+	{"go", "go %C\n0", "none", true},
+	{"call-entry", "func f() { return %S.wait() }\n0", "raise", true}, // host: risor.Call(code, "f")
+	{"method-spawn-wait", "t := %M\nt.wait()", "raise", false},
+	{"spawn-nowait", "%S\n0", "none", false},
+	{"spawn-try-wait", "try(func() { return %S.wait() }, func(e) { return \"E:\" + string(e) })", "caught", false},
+	{"nested-spawn", "t := spawn(func() { return %S.wait() })\nt.wait()", "raise", false},
+	{"go-inside-thread", "t := spawn(func() { go %C\n return 0 })\nt.wait()", "none", false},
+	{"spawn-in-defer", "func g() { defer func() { %S.wait() }()\n return 0 }\ng()", "raise", false},
+	{"spawn-in-each", "[1, 2].each(func(i) { %S.wait() })", "raise", false},
+	{"three-threads", "ts := [%S, %S, %S]\nfor _, t := range ts { try(func() { t.wait() }, func(e) { return 0 }) }\n0", "none", false},
+}
+
+func c03IsGoPanicMsg(msg string) bool { return strings.HasPrefix(msg, "panic:") }
+
+func (c *c03Run) threadCases() {
+	e := c.e
+	rank := 0
+	for _, ps := range c03PanicSources() {
+		ps := ps
+		call := ps.fn + "(" + ps.args + ")"
+		sp := "spawn(" + ps.fn
+		if ps.args != "" {
+			sp += ", " + ps.args
+		}
+		sp += ")"
+		msp := ps.fn + ".spawn(" + ps.args + ")"
+		shown := ps.shownDefs
+		if shown == "" {
+			shown = ps.defs
+		}
+		expand := func(t, defs string) string {
+			t = strings.ReplaceAll(t, "%C", call)
+			t = strings.ReplaceAll(t, "%S", sp)
+			t = strings.ReplaceAll(t, "%M", msp)
+			if defs == "" {
+				return t
+			}
+			return defs + "\n" + t
+		}
+		// ranks are fixed here, in generation order, so that the replay names the simplest case
+		baseRank := rank
+		rank += 1 + len(c03ThreadStyles)
+		threads := func(body string) {
+			for i, st := range c03ThreadStyles {
+				if !ps.all && !st.basic {
+					continue
+				}
+				st := st
+				src, text := expand(st.tmpl, ps.defs), expand(st.tmpl, shown)
+				mode, how := "script", "risor.Eval with risor.WithConcurrency()"
+				if st.name == "call-entry" {
+					mode, how = "call", "risor.Call(code, \"f\") with risor.WithConcurrency()"
+				}
+				key := fmt.Sprintf("thread|source=%s|start=%s|%s|%s", ps.name, st.name, how, strconv.Quote(text))
+				c.setRank(key, baseRank+1+i)
+				c.pool.submitAsync(c03Req{Mode: mode, Opt: "conc", Src: hex.EncodeToString([]byte(src)), N: 10000}, 60*time.Second, func(res c03Result) {
+					c.judgeThread(key, "thread", body, st.observe, res)
+				})
+			}
+		}
+		// the body on the caller's goroutine (entry run): decides / measures its class
+		src, text := expand("%C", ps.defs), expand("%C", shown)
+		key := fmt.Sprintf("thread|source=%s|start=none (main goroutine)|risor.Eval with risor.WithConcurrency()|%s", ps.name, strconv.Quote(text))
+		c.setRank(key, baseRank)
+		c.pool.submit(c03Req{Mode: "script", Opt: "conc", Src: hex.EncodeToString([]byte(src)), N: 10000}, 60*time.Second, func(res c03Result) {
+			body := "ops:" + ps.ops
+			if ps.ops == "" {
+				body = "return"
+				if res.Death != nil || res.Resp.Eval == "panic" || (res.Resp.Eval == "err" && c03IsGoPanicMsg(res.Resp.EvalMsg)) {
+					body = "panic"
+				}
+			}
+			e.R.H("thread_body", ps.name+": "+strings.SplitN(body, ":", 2)[0])
+			c.judgeThread(key, "run", body, "raise", res)
+			threads(body)
+		})
+	}
+	// object.NewThread itself, with callables that panic with each kind of value
+	for i, kind := range []string{"return", "string", "error", "runtime-error", "nil-map-write", "custom-value", "error-object"} {
+		kind := kind
+		key := "thread-api|object.NewThread(ctx, callable, nil).Wait(ctx)|callable: " + c03ApiCallableDoc[kind]
+		c.setRank(key, 100000+i)
+		c.pool.submit(c03Req{Mode: "threadapi", Opt: kind}, 30*time.Second, func(res c03Result) {
+			body := "panic"
+			if kind == "return" || kind == "error-object" {
+				body = "return"
+			}
+			c.judgeThread(key, "thread", body, "raise", res)
+		})
+	}
+}
+
+var c03ApiCallableDoc = map[string]string{
+	"return":        "returns object.NewInt(42)",
+	"error-object":  "returns object.Errorf(\"e\")",
+	"string":        "panic(\"boom\")",
+	"error":         "panic(errors.New(\"boom\"))",
+	"runtime-error": "indexes an empty slice (runtime.Error)",
+	"nil-map-write": "writes to a nil map (runtime.Error)",
+	"custom-value":  "panic(struct{ A int }{7})",
+}
+
+func (c *c03Run) setRank(key string, r int) {
+	c.mu.Lock()
+	if c.ranks == nil {
+		c.ranks = map[string]int{}
+	}
+	c.ranks[key] = r
+	c.mu.Unlock()
+}
+
+// threadDeath: a child running a concurrency case was terminated.
+func (c *c03Run) threadDeath(key string, d *c03Death) {
+	e := c.e
+	e.R.H("child_deaths", d.Kind)
+	switch d.Kind {
+	case "timeout":
+		e.R.H("excluded", "no answer within the time limit (timing is never a verdict)")
+		e.R.Note("no verdict (timeout): %s", c03_short(key, 200))
+		return
+	case "memlimit":
+		e.R.H("excluded", "memory exhausted by data size (child watchdog)")
+		return
+	}
+	tail := d.Stderr
+	if i := strings.Index(tail, "\n\n"); i > 0 {
+		tail = tail[:i]
+	}
+	gor := ""
+	if i := strings.Index(d.Stderr, "\ngoroutine "); i >= 0 {
+		gor = d.Stderr[i+1:]
+		if j := strings.IndexByte(gor, '\n'); j > 0 {
+			gor = gor[:j]
+		}
+	}
+	created := ""
+	if i := strings.Index(d.Stderr, "created by "); i >= 0 {
+		created = d.Stderr[i:]
+		if j := strings.IndexByte(created, '\n'); j > 0 {
+			created = created[:j]
+		}
+	}
+	e.R.Spec(key, fmt.Sprintf("the embedding process was terminated by the Go runtime (%s, exit %d): a Go panic raised on a goroutine started by the script was not recovered there — %s | %s %s",
+		d.Kind, d.Exit, c03_short(strings.TrimSpace(tail), 300), gor, created), "")
+}
+
+// judgeThread compares one concurrency case with the model's `enter <entry> <body>`.
+func (c *c03Run) judgeThread(key, entry, body, observe string, res c03Result) {
+	e := c.e
+	e.R.Case(key, true)
+	rep := strings.Split(e.O.Ask("C03", "enter", entry, body), "\t")
+	model := rep[0] // value | error | killed
+	if model != "value" && model != "error" && model != "killed" {
+		e.R.Mismatch(key, "enter "+entry+" "+body, strings.Join(rep, " "), "oracle refused the request")
+		return
+	}
+	goOut, msg := "", ""
+	switch {
+	case res.Death != nil && (res.Death.Kind == "timeout" || res.Death.Kind == "memlimit"):
+		c.threadDeath(key, res.Death)
+		return
+	case res.Death != nil:
+		goOut, msg = "killed", res.Death.Kind
+	default:
+		r := res.Resp
+		msg = r.EvalMsg
+		switch {
+		case r.Eval == "timeout":
+			e.R.H("excluded", "no answer within the time limit (timing is never a verdict)")
+			return
+		case r.Eval == "panic":
+			goOut = "escaped"
+		case strings.Contains(r.EvalMsg, "did not contain a spawn function") || r.Compile == "err":
+			goOut = "not-run"
+			msg = r.EvalMsg + r.CompMsg
+		case observe == "raise" && r.Eval == "err" && c03IsGoPanicMsg(r.EvalMsg):
+			goOut = "error"
+		case observe == "caught" && r.Eval == "ok" && strings.HasPrefix(r.Value, "\"E:panic:"):
+			goOut, msg = "error", r.Value
+		case observe == "none":
+			goOut = "alive"
+		default:
+			goOut = "value"
+		}
+	}
+	want := model
+	if observe == "none" && model != "killed" {
+		want = "alive"
+	}
+	e.R.H("thread_outcome", entry+" "+strings.SplitN(body, ":", 2)[0]+" observe="+observe+": "+goOut)
+	if goOut == "killed" {
+		c.threadDeath(key, res.Death)
+	}
+	if goOut == "escaped" {
+		e.R.Spec(key, "a Go panic escaped the embedding API into the host's goroutine: "+msg, "")
+	}
+	if goOut != want {
+		e.R.Mismatch(key, goOut+" "+c03_short(msg, 160), strings.Join(rep, " "),
+			"outcome of a body under an entry point (value = returned, error = the Go panic came back as an error `panic: …`, killed = process terminated)")
+	}
+}
+
+// orderViolations: among the recorded violations, the thread cases appear simplest first (the
+// callbacks run concurrently; ./check stores the first unlisted violation as the replay).
+func (c *c03Run) orderViolations() {
+	r := c.e.R
+	r.mu.Lock()
+	defer r.mu.Unlock()
+	var idx []int
+	var vs []SpecViolation
+	for i, v := range r.SpecViolations {
+		if _, ok := c.ranks[v.Case]; ok && v.Finding == "" {
+			idx = append(idx, i)
+			vs = append(vs, v)
+		}
+	}
+	sort.SliceStable(vs, func(a, b int) bool { return c.ranks[vs[a].Case] < c.ranks[vs[b].Case] })
+	for k, i := range idx {
+		r.SpecViolations[i] = vs[k]
 	}
 }
 
@@ -862,6 +1186,24 @@ func (c *c03Run) scriptCases(n int, all bool) {
 			combos = append(combos, combo{v, op})
 		}
 	}
+	// the same operation on a goroutine of its own (spawned and waited for / started with
+	// `go` and not waited for): thorough every combination, quick one in four
+	n0 := len(combos)
+	for i := 0; i < n0; i++ {
+		cb := combos[i]
+		if strings.Contains(cb.op, "spawn(") || strings.HasPrefix(cb.op, "go ") || cb.v.deep && strings.HasPrefix(cb.v.name, "deep-") && strings.HasSuffix(cb.v.name, "1e5") {
+			continue
+		}
+		if !all && !rng.Chance(25) {
+			continue
+		}
+		if all || rng.Bool() {
+			combos = append(combos, combo{cb.v, "spawn(func() { " + cb.op + " }).wait()"})
+		}
+		if all || rng.Bool() {
+			combos = append(combos, combo{cb.v, "go func() { " + cb.op + " }()"})
+		}
+	}
 	for _, cb := range combos {
 		cb := cb
 		src := cb.v.setup + "\n" + cb.op
@@ -870,7 +1212,8 @@ func (c *c03Run) scriptCases(n int, all bool) {
 		if cb.v.cyclic {
 			pool = c.small
 		}
-		pool.submit(c03Req{Mode: "script", Src: hex.EncodeToString([]byte(src)), N: 20000}, 40*time.Second, func(res c03Result) {
+		// risor.WithConcurrency(): without it spawn / go only return an error
+		pool.submit(c03Req{Mode: "script", Opt: "conc", Src: hex.EncodeToString([]byte(src)), N: 20000}, 40*time.Second, func(res c03Result) {
 			e.R.Case(key, true)
 			e.R.H("script_value", cb.v.name)
 			if res.Death != nil {
@@ -885,6 +1228,12 @@ func (c *c03Run) scriptCases(n int, all bool) {
 			e.R.H("script_outcome", res.Resp.Eval)
 			if res.Resp.Eval == "panic" {
 				e.R.Spec(key+"|"+strconv.Quote(src), "a Go panic escaped risor.Eval: "+res.Resp.EvalMsg, "")
+			}
+			if strings.Contains(res.Resp.EvalMsg, "did not contain a spawn function") {
+				e.R.Mismatch(key, res.Resp.EvalMsg, "a thread is started", "the case must run with concurrency enabled (otherwise it exercises nothing)")
+			}
+			if strings.Contains(cb.op, "spawn(") || strings.Contains(cb.op, "go func") {
+				e.R.H("script_threaded", res.Resp.Eval)
 			}
 		})
 	}
@@ -934,6 +1283,10 @@ func c03_runC03(e *Env) {
 		"lexer (every token: positions, GetLineText, FriendlyErrorMessage), parser.Parse, Error()/FriendlyErrorMessage() of the returned error, AST export, " +
 		"compiler.Compile, risor.Eval inside a child process. Plus scripts over the default globals applied to cyclic / 1e5-deep / plain containers, " +
 		"generated heaps for Inspect and Equals, VM depth thresholds through Eval / Call / EvalCode, and very deep nesting. " +
+		"Goroutines (risor.WithConcurrency()): bodies that raise a Go panic (unbounded recursion, frame / operand depths around 1024, panicking builtins and methods) and bodies that return, " +
+		"run on the main goroutine and under 11 start styles (spawn+wait, f.spawn, go, not waited for, nested, go inside a thread, inside try / defer / each, three at once, through risor.Call), " +
+		"plus object.NewThread with faulting callables; outcome value / error / killed against the model's `enter`; script operations also wrapped in spawn(...).wait() and go func(){...}(); " +
+		"stream inputs whose Go panic vm.Run recovered are re-run as the body of a spawned function. " +
 		"A case is distinct by its bytes; a source case is non-trivial when the parser got past the first token (parse ok, or the error position is after the first token); " +
 		"script / heap / VM cases are non-trivial when they call at least one builtin or operator on a container"
 	c := &c03Run{e: e}
@@ -950,6 +1303,7 @@ func c03_runC03(e *Env) {
 	for _, d := range c03Directed {
 		c.srcCase("directed", d.src)
 	}
+	c.threadCases()
 	c.vmCases()
 	c.deepCases()
 	c.scriptCases(nScript, !e.Quick)
@@ -994,6 +1348,7 @@ func c03_runC03(e *Env) {
 	}
 	c.pool.wait()
 	c.small.wait()
+	c.orderViolations()
 	ks := sortedKeys(e.R.FindingsConfirmed)
 	sort.Strings(ks)
 	e.R.Note("known-finding guards hit: %s", strings.Join(ks, ", "))
@@ -1049,10 +1404,10 @@ func init() { childCommands["C03-child"] = c03Child }
 
 type c03Req struct {
 	ID   int    `json:"id"`
-	Mode string `json:"mode"` // src | deep | script | call | heap
+	Mode string `json:"mode"` // src | deep | script | call | heap | threadapi
 	Src  string `json:"src"`  // hex
 	N    int    `json:"n"`
-	Opt  string `json:"opt"`
+	Opt  string `json:"opt"` // script / call: "conc" = risor.WithConcurrency()
 }
 
 type c03Tok struct {
@@ -1081,6 +1436,7 @@ type c03Resp struct {
 	Eval     string   `json:"eval,omitempty"` // ok | err | panic | timeout
 	EvalMsg  string   `json:"evalmsg,omitempty"`
 	Value    string   `json:"value,omitempty"`
+	Left     int      `json:"left,omitempty"` // goroutines started by the case that were still running when it answered
 	Ms       int64    `json:"ms"`
 }
 
@@ -1132,9 +1488,11 @@ func c03Child(args []string) {
 		case "deep":
 			resp = c03RunSrc(c03DeepSrc(req.Opt, req.N), "notoks,noast")
 		case "script":
-			resp = c03RunScript(string(srcB), req.N)
+			resp = c03RunScript(string(srcB), req.N, req.Opt == "conc")
 		case "call":
-			resp = c03RunCall(string(srcB), req.N)
+			resp = c03RunCall(string(srcB), req.N, req.Opt == "conc")
+		case "threadapi":
+			resp = c03RunThreadAPI(req.Opt)
 		case "heap":
 			resp = c03RunHeap(req.Opt, string(srcB))
 		}
@@ -1484,18 +1842,37 @@ func (w *c03_astWriter) node(s reflect.Value) {
 
 // ---------------------------------------------------------------- scripts, Call, heaps
 
-func c03RunScript(src string, ms int) (resp c03Resp) {
+// c03Drain waits until the goroutines a case started are gone (a Go panic that nobody
+// recovers on one of them terminates this process HERE, before the case is answered, so the
+// parent attributes the death to the right case).  Not a verdict: it only orders events.
+func c03Drain(base int) int {
+	deadline := time.Now().Add(3 * time.Second)
+	for runtime.NumGoroutine() > base && time.Now().Before(deadline) {
+		time.Sleep(500 * time.Microsecond)
+	}
+	if n := runtime.NumGoroutine() - base; n > 0 {
+		return n
+	}
+	return 0
+}
+
+func c03RunScript(src string, ms int, conc bool) (resp c03Resp) {
 	if ms <= 0 {
 		ms = 2000
 	}
 	resp.Parse = "n/a"
-	out := EvalSrc(src, time.Duration(ms)*time.Millisecond)
-	c03EvalOut(&resp, out)
+	if !conc {
+		c03EvalOut(&resp, EvalSrc(src, time.Duration(ms)*time.Millisecond))
+		return
+	}
+	base := runtime.NumGoroutine()
+	c03EvalOut(&resp, EvalSrc(src, time.Duration(ms)*time.Millisecond, risor.WithConcurrency()))
+	resp.Left = c03Drain(base)
 	return
 }
 
 // c03RunCall: compile, then risor.Call(code, "f") and risor.EvalCode(code).
-func c03RunCall(src string, ms int) (resp c03Resp) {
+func c03RunCall(src string, ms int, conc bool) (resp c03Resp) {
 	if ms <= 0 {
 		ms = 2000
 	}
@@ -1506,8 +1883,18 @@ func c03RunCall(src string, ms int) (resp c03Resp) {
 		return
 	}
 	resp.Compile = "ok"
+	var opts []risor.Option
+	if conc {
+		opts = append(opts, risor.WithConcurrency())
+	}
+	base := runtime.NumGoroutine()
 	ctx, cancel := context.WithTimeout(context.Background(), time.Duration(ms)*time.Millisecond)
-	defer cancel()
+	defer func() {
+		cancel()
+		if conc {
+			resp.Left = c03Drain(base)
+		}
+	}()
 	func() {
 		defer func() {
 			if r := recover(); r != nil {
@@ -1515,7 +1902,7 @@ func c03RunCall(src string, ms int) (resp c03Resp) {
 				resp.EvalMsg = "Call: " + c03_short(fmt.Sprint(r), 300)
 			}
 		}()
-		v, err := risor.Call(ctx, code, "f", nil)
+		v, err := risor.Call(ctx, code, "f", nil, opts...)
 		if err != nil {
 			resp.Eval = "err"
 			resp.EvalMsg = c03_short(err.Error(), 200)
@@ -1535,11 +1922,61 @@ func c03RunCall(src string, ms int) (resp c03Resp) {
 				resp.EvalMsg = "EvalCode: " + c03_short(fmt.Sprint(r), 300)
 			}
 		}()
-		_, err := risor.EvalCode(ctx, code)
+		_, err := risor.EvalCode(ctx, code, opts...)
 		if err != nil {
 			_ = err.Error()
 		}
 	}()
+	return
+}
+
+// c03PanicCallable: an object.Callable (what a builtin is to NewThread) that faults in a chosen way.
+type c03PanicCallable struct{ kind string }
+
+func (p c03PanicCallable) Call(ctx context.Context, args ...object.Object) object.Object {
+	switch p.kind {
+	case "string":
+		panic("boom")
+	case "error":
+		panic(fmt.Errorf("boom"))
+	case "runtime-error":
+		var xs []int
+		_ = xs[len(args)+3]
+	case "nil-map-write":
+		var m map[string]int
+		m["k"] = 1
+	case "custom-value":
+		panic(struct{ A int }{7})
+	case "error-object":
+		return object.Errorf("e")
+	}
+	return object.NewInt(42)
+}
+
+// c03RunThreadAPI: object.NewThread(ctx, callable, nil).Wait(ctx) with a faulting callable.
+func c03RunThreadAPI(kind string) (resp c03Resp) {
+	base := runtime.NumGoroutine()
+	ctx, cancel := context.WithTimeout(context.Background(), 10*time.Second)
+	defer func() {
+		if r := recover(); r != nil {
+			resp.Eval = "panic"
+			resp.EvalMsg = c03_short(fmt.Sprint(r), 300)
+		}
+		cancel()
+		resp.Left = c03Drain(base)
+	}()
+	res := object.NewThread(ctx, c03PanicCallable{kind}, nil).Wait(ctx)
+	switch v := res.(type) {
+	case nil:
+		resp.Eval = "ok"
+		resp.Value = "<nil>"
+	case *object.Error:
+		resp.Eval = "err"
+		resp.EvalMsg = c03_short(v.Value().Error(), 200)
+	default:
+		resp.Eval = "ok"
+		resp.Value = c03_short(v.Inspect(), 100)
+	}
 	return
 }
 
